@@ -27,7 +27,7 @@ pub fn get(id: &str) -> Option<Box<dyn Prop>> {
     match id {
         "C01" => Some(Box::new(c01::C01)),
         "C02" => Some(Box::new(hist_props::c02())),
-        "C03" => Some(Box::new(c03::prop())),
+        "C03" => Some(Box::new(c03::C03)),
         "C04" => Some(Box::new(hist_props::c04())),
         "C05" => Some(Box::new(hist_props::c05())),
         "C06" => Some(Box::new(hist_props::C06)),
